@@ -100,6 +100,10 @@ class TD(metaclass=_TDMeta):
     def _o(self, o):
         if isinstance(o, TD):
             return o.sec
+        if isinstance(o, _dtm.timedelta) and o.microseconds:
+            return Fraction(o // _dtm.timedelta(microseconds=1), 10 ** 6)  # comparisons see the sub-second part
+        if isinstance(o, rnp.timedelta64) and o != rnp.timedelta64(o, "s"):
+            return Fraction(int(o / rnp.timedelta64(1, "us")), 10 ** 6)
         if isinstance(o, (rnp.timedelta64, _dtm.timedelta)):
             return TD(o).sec
         return None
@@ -240,11 +244,31 @@ class TD(metaclass=_TDMeta):
         return f"TD({self.sec})"
 
 
+class _NaT:
+    """not-a-time sentinel: can be stored and moved around, any arithmetic or comparison with it is unsupported"""
+
+    def _u(self, *a):
+        raise Unsupported("NaT")
+
+    __add__ = __radd__ = __sub__ = __rsub__ = __lt__ = __le__ = __gt__ = __ge__ = _u
+
+    def __repr__(self):
+        return "NaT"
+
+
+NAT = _NaT()
+
+
 class DT:
     """np.datetime64[s] stand-in, whole seconds since epoch"""
 
     __slots__ = ("sec",)
     __array_priority__ = 1000
+
+    def __new__(cls, x="", unit=None):
+        if isinstance(x, str) and x == "NaT":
+            return NAT  # not a DT: __init__ is skipped
+        return object.__new__(cls)
 
     def __init__(self, x="", unit=None):
         if isinstance(x, DT):
